@@ -8,6 +8,9 @@ usage: seed_eval.py <out_dir> <worktree> <seed_id> <prop> [<more props to run>..
 import json, os, shutil, subprocess, sys, time
 import xml.etree.ElementTree as ET
 
+VERIF = os.path.dirname(os.path.dirname(os.path.abspath(__file__)))
+REPO = os.environ.get("VERIF_REPO", "/repo")   # the tree the patches are applied to (a scratch clone when set)
+
 out_dir, wt, seed_id, props = sys.argv[1], sys.argv[2], sys.argv[3], sys.argv[4:]
 patch = os.path.join(out_dir, "patch.diff")
 demo = os.path.join(out_dir, "demo.py")
@@ -52,19 +55,19 @@ confirmed = (not missing) and rc1 != 0 and rc0 == 0
 meta["confirmed"] = confirmed
 print(f"[{seed_id}] tests_missing={len(missing)} demo_with_patch={rc1} demo_clean={rc0} confirmed={confirmed}")
 if confirmed:
-    rc, o = sh(["git", "apply", patch], cwd="/repo")
+    rc, o = sh(["git", "apply", patch], cwd=REPO)
     assert rc == 0, "patch does not apply in /repo: " + o
     try:
         for p in props:
             t = time.time()
-            rc, o = sh(["./check", p, "--tier", "quick"], cwd="/verif", env=dict(os.environ, VERIF_EVIDENCE_DIR="/tmp/seed_eval_evidence"), timeout=1500)
+            rc, o = sh(["./check", p, "--tier", "quick"], cwd=VERIF, env=dict(os.environ, VERIF_EVIDENCE_DIR="/tmp/seed_eval_evidence"), timeout=1500)
             lines = [l for l in o.splitlines() if l.startswith(("VIOLATION", "KNOWN-FINDING"))]
             meta["ran"].append({"check": p, "exit": rc, "lines": lines[:5], "wall_s": round(time.time() - t, 1)})
             print(f"   ./check {p} -> exit {rc} {lines[:2]}")
     finally:
-        sh("git checkout -- .", cwd="/repo")
+        sh("git checkout -- .", cwd=REPO)
     meta["detected_by"] = [r["check"] for r in meta["ran"] if r["exit"] == 1]
-dst = f"/verif/seeded/{seed_id}"
+dst = f"{VERIF}/seeded/{seed_id}"
 os.makedirs(dst, exist_ok=True)
 for f in ("patch.diff", "demo.py", "README.md"):
     if os.path.exists(os.path.join(out_dir, f)):
